@@ -187,7 +187,7 @@ def checker_factory(modname, entries):
                 x, today = w
                 desc = native_violation(e, x, today)
                 okall = False
-                sw.finding('conversion breaks validity or identity', '%s: %s' % (e['fn'], what), input=x, opts=opts, today=today, approx=ctx.approx,
+                sw.finding('conversion breaks validity or identity', '%s: %s' % (e['fn'], what), input=x, opts=opts, today=today, approx=ctx.approx or bool(getattr(ctx, 'soft', None)),
                            real=desc, reproduced=desc is not None, conv=e['fn'])
             sw.obligations.append((oid, 'proved' if okall else 'refuted', '%d paths' % len(paths)))
         if not sw.samples:
